@@ -25,6 +25,8 @@ def cases(tier, seed):
     rng = random.Random(seed * 982451653 + 23)
     yield {"config": BURST_CFG, "producers": [["T"] * 30], "engine": "sync", "kinds": {}, "family": "burst"}
     yield {"config": BURST_CFG, "producers": [["T"] * 30], "engine": "async", "kinds": {}, "family": "burst"}
+    for eng in ("sync", "async"):     # regression of the repaired start()-time re-entrancy (an initial always-transition raising an event)
+        yield {"config": START_RAISE_CFG, "producers": [["E1"]], "engine": eng, "kinds": {}, "family": "start-raise"}
     for c in M.gen_cases(seed * 982451653 + 1, n, features={"raise": 0.35, "always": 0.15, "parallel": 0.3, "trans": 0.6}):
         k = rng.randint(1, 3)
         c["producers"] = [[f"{rng.choice(M.EVENTS)}" for _ in range(rng.randint(1, 8))] for _ in range(k)]
@@ -33,6 +35,9 @@ def cases(tier, seed):
         yield c
 
 
+START_RAISE_CFG = {"id": "m", "initial": "a", "maxIterations": 12, "context": {"n": 0}, "states": {
+    "a": {"always": {"target": "#m.b", "actions": [{"type": "xstate.raise", "params": {"event": {"type": "E2"}}}]}}, "b": {}},
+    "on": {"E2": {"actions": ["inc"]}, "E1": {"actions": ["inc"]}}}
 BURST_CFG = {"id": "m", "initial": "a", "maxIterations": 12, "context": {"n": 0},
              "states": {"a": {"on": {"T": {"actions": ["inc"]}}}}}
 
